@@ -44,6 +44,8 @@ pub struct Ident {
     pub same_callsign_before: bool,
 }
 
+const FOREIGN_AC: u32 = 0x4840D6;
+
 fn ident_frame(i: &Ident) -> Frame {
     bits::es(if i.df18 { 18 } else { 17 }, i.hdr_ca, i.addr, bits::me_ident(i.tc, i.ca, i.chars))
 }
@@ -235,6 +237,50 @@ fn run(c: &mut Ctx) {
             }
         }
     }
+    // frames that are neither identification squitters nor Comm-B replies leave callsign and category alone
+    {
+        let cases = c.tier.pick(3_000, 60_000);
+        let foreign = crate::alphabet::frame_any(FOREIGN_AC).prop_filter("not an identification squitter / Comm-B reply", |f| {
+            let tc = f.get(33, 37);
+            !(f.df() == 20 || f.df() == 21 || ((f.df() == 17 || f.df() == 18) && (1..=4).contains(&tc)))
+        });
+        let strat = (gen::opts_ur(), gen::chars8_valid(), 1u32..=4, 0u32..8, proptest::collection::vec(prop_oneof![8 => foreign, 1 => crate::alphabet::other_df_frame(FOREIGN_AC)], 1..20));
+        let r = c.proptest(cases, strat, |c, (opts, chars, tc, ca, frames), counting| {
+            let t = run::new_table();
+            let mut lines = vec![bits::df11(FOREIGN_AC, 5, 0).hex(), bits::es(17, 5, FOREIGN_AC, bits::me_ident(*tc, *ca, *chars)).hex()];
+            lines.extend(frames.iter().map(|f| f.hex()));
+            run::run_lines(opts, &t, &lines).map_err(|e| format!("reader failed: {:?}", e))?;
+            let snap = run::snapshot(&t);
+            let row = snap.get(&FOREIGN_AC).ok_or("row missing")?;
+            let got = row.ais.clone().unwrap_or_default();
+            if got != callsign(chars) || row.category != (*tc, *ca) {
+                // find the first frame that did it
+                let mut culprit = String::new();
+                for k in 0..frames.len() {
+                    let t2 = run::new_table();
+                    let _ = run::run_lines(opts, &t2, &lines[..3 + k]);
+                    let s2 = run::snapshot(&t2);
+                    if let Some(r2) = s2.get(&FOREIGN_AC) {
+                        if r2.ais.clone().unwrap_or_default() != callsign(chars) || r2.category != (*tc, *ca) {
+                            culprit = format!("DF{} frame {}", frames[k].df(), frames[k].hex());
+                            break;
+                        }
+                    }
+                }
+                return Err(format!("callsign/category of {:06X} changed from {:?}/({},{}) to {:?}/{:?} by frames that are not identification squitters ({}; {})", FOREIGN_AC, callsign(chars), tc, ca, got, row.category, culprit, opts.label()));
+            }
+            if counting {
+                c.eval(1);
+                c.class("foreign_frames_after_identification");
+                c.nontrivial(&format!("{:?}{:?}", chars, frames));
+            }
+            Ok(())
+        });
+        if let Some(((opts, chars, tc, ca, frames), m)) = r {
+            c.fail(m, "c07:foreign", json!({"kind":"foreign","opts":opts,"chars":chars,"tc":tc,"ca":ca,"frames":frames}));
+            return;
+        }
+    }
     // generated strings
     let cases = c.tier.pick(30_000, 400_000);
     let strat = (gen::opts_ur(), gen::addr(), 1u32..=4, 0u32..8, 0u32..8, proptest::array::uniform8(0u8..64), any::<bool>(), any::<bool>()).prop_map(|(opts, addr, tc, ca, hdr_ca, chars, update, same)| Ident { opts, addr, tc, ca, hdr_ca, chars, update, df18: false, same_callsign_before: same });
@@ -278,6 +324,23 @@ fn run(c: &mut Ctx) {
 fn replay(c: &mut Ctx, case: &Value) {
     c.eval(1);
     match case["kind"].as_str() {
+        Some("foreign") => {
+            let opts: Opts = serde_json::from_value(case["opts"].clone()).unwrap_or_default();
+            let chars: [u8; 8] = serde_json::from_value(case["chars"].clone()).unwrap_or([1; 8]);
+            let tc = case["tc"].as_u64().unwrap_or(1) as u32;
+            let ca = case["ca"].as_u64().unwrap_or(0) as u32;
+            let frames: Vec<Frame> = serde_json::from_value(case["frames"].clone()).unwrap_or_default();
+            let t = run::new_table();
+            let mut lines = vec![bits::df11(FOREIGN_AC, 5, 0).hex(), bits::es(17, 5, FOREIGN_AC, bits::me_ident(tc, ca, chars)).hex()];
+            lines.extend(frames.iter().map(|f| f.hex()));
+            let _ = run::run_lines(&opts, &t, &lines);
+            let snap = run::snapshot(&t);
+            if let Some(row) = snap.get(&FOREIGN_AC) {
+                if row.ais.clone().unwrap_or_default() != callsign(&chars) || row.category != (tc, ca) {
+                    c.fail(format!("callsign/category changed to {:?}/{:?} by frames that are not identification squitters", row.ais, row.category), "c07:foreign", case.clone());
+                }
+            }
+        }
         Some("lines") => {
             let lines: Vec<String> = serde_json::from_value(case["lines"].clone()).unwrap_or_default();
             let t = run::new_table();
